@@ -34,7 +34,7 @@ FLOORS = {"quick": {"demux_packets": 8000, "fib_empty_table_cases": 150, "defaul
                        "hub_with_ports": 4000, "hub_without_ports": 4000, "splitter_packets": 16000, "fattree_built": 6000,
                        "fib_walks": 160000, "reverse_walks": 40000, "e2e_packets": 160000, "e2e_hops": 1000000,
                        "e2e_shared_class_runs": 2000, "e2e_SP": 600, "e2e_WFQ": 600, "e2e_DRR": 600, "e2e_VirtualClock": 600}}
-KEYS = tuple(FLOORS["quick"].keys()) + ("demux_reconfigurations", "splitter_rewriting_receivers", "fattree_twin_trees", "fib_tables_with_default_route", "hub_synchronous_answers", "hub_endpoints_renamed_after_attach", "fattree_flow_dicts_rekeyed", "hub_ports_prewired")
+KEYS = tuple(FLOORS["quick"].keys()) + ("demux_reconfigurations", "splitter_rewriting_receivers", "fattree_twin_trees", "fib_tables_with_default_route", "hub_synchronous_answers", "hub_endpoints_renamed_after_attach", "fattree_flow_dicts_rekeyed", "hub_ports_prewired", "end_device_falsy_when_used")
 # floors for the situations added with the later rounds of seeded changes (evidence that they were really exercised)
 FLOORS["quick"].update({'fib_tables_with_default_route': 70, 'hub_synchronous_answers': 200})
 FLOORS["thorough"].update({'fib_tables_with_default_route': 350, 'hub_synchronous_answers': 1000})
@@ -42,6 +42,8 @@ FLOORS["quick"].update({'hub_endpoints_renamed_after_attach': 80})
 FLOORS["thorough"].update({'hub_endpoints_renamed_after_attach': 400})
 FLOORS["quick"].update({'fattree_flow_dicts_rekeyed': 80, 'hub_ports_prewired': 100})
 FLOORS["thorough"].update({'fattree_flow_dicts_rekeyed': 400, 'hub_ports_prewired': 500})
+FLOORS["quick"].update({'end_device_falsy_when_used': 60})
+FLOORS["thorough"].update({'end_device_falsy_when_used': 300})
 
 
 def plan(tier):
@@ -62,6 +64,13 @@ class Dev:
 
     def put(self, p):
         self.got.append(p)
+
+
+class CountingDev(Dev):
+    """an endpoint whose len() is the number of packets it holds: falsy while it is empty, like any container"""
+
+    def __len__(self):
+        return len(self.got)
 
 
 def mkpkt(flow, src="s", pid=0, size=100):
@@ -103,7 +112,7 @@ def demux_case(rng, stats, bad):
         if d.packets_recevied != n + 3:
             bad("flowdemux-counter", "FlowDemux packet counter wrong", None)
         return nt
-    ends = {f: Dev(f"end{f}") for f in rng.sample(range(8), rng.randint(0, 3))}
+    ends = {f: (CountingDev if rng.random() < 0.3 else Dev)(f"end{f}") for f in rng.sample(range(8), rng.randint(0, 3))}
     fib = {}
     kind = rng.random()
     if kind < 0.2:
@@ -132,7 +141,7 @@ def demux_case(rng, stats, bad):
                 r = rng.random()
                 f = rng.randrange(9)
                 if r < 0.3:
-                    ends[f] = Dev(f"end{f}.{phase}")
+                    ends[f] = (CountingDev if rng.random() < 0.3 else Dev)(f"end{f}.{phase}")
                 elif r < 0.45 and ends:
                     del ends[rng.choice(sorted(ends))]
                 elif r < 0.65:
@@ -170,6 +179,8 @@ def demux_case(rng, stats, bad):
             if f in ends:
                 want = ends[f]
                 stats["ends_used"] += 1
+                if isinstance(want, CountingDev) and len(want.got) <= 1:
+                    stats["end_device_falsy_when_used"] += 1
             elif named is not None and named < n:
                 want = outs[named]
             else:
